@@ -135,6 +135,7 @@ def run(rep: core.Report):
     _r19d(rep)
     _r19e(rep)
     _r19h(rep)
+    _r19k(rep)
     from rules import shared_bcast
 
     shared_bcast.run(rep, "R19i", ["phonopy/phonon/thermal_displacement.py", "phonopy/phonon/random_displacements.py"])
@@ -319,6 +320,81 @@ def _r19h(rep):
     rep.instance("R19h", TD, f"{M}.run", "the CIF matrix of temperature i, atom j is stored at [i, j]", ok_ix, "the transformed matrices are not stored at the position of the Cartesian matrix they come from", line=run.lineno)
 
 
+
+
+
+_MEMO_CONTROL = """
+class K:
+    def frequencies(self, v):
+        self._eig = v
+    def _set(self, T):
+        if self._T is not None and T == self._T:
+            return
+        self._sig = self._get(self._eig, T)
+        self._T = T
+"""
+
+
+def _memo_findings(cls: ast.ClassDef):
+    """(method, key attribute, derived attributes, source attributes, [writers of a source that do not reset the key])
+    for every memoising method of a class: `if <test on self._K>: return` first, then self._D = f(self._S ...) and
+    self._K = ... ; every other method that writes an S must reset K (or recompute the D)."""
+    out = []
+    methods = [m for m in cls.body if isinstance(m, ast.FunctionDef)]
+    for m in methods:
+        body = [st for st in m.body if not (isinstance(st, ast.Expr) and isinstance(st.value, ast.Constant))]
+        if not body or not isinstance(body[0], ast.If) or not (len(body[0].body) == 1 and isinstance(body[0].body[0], ast.Return) and body[0].body[0].value is None) or body[0].orelse:
+            continue
+        keys = {core.src(a) for a in ast.walk(body[0].test) if isinstance(a, ast.Attribute) and core.src(a.value) == "self"}
+        assigned = {}
+        for st in body[1:]:
+            for a in ast.walk(st):
+                if isinstance(a, ast.Assign):
+                    for t in a.targets:
+                        for x in ([t] if not isinstance(t, ast.Tuple) else t.elts):
+                            if isinstance(x, ast.Attribute) and core.src(x.value) == "self":
+                                assigned[core.src(x)] = a.value
+        key = sorted(k for k in keys if k in assigned)
+        if not key:
+            continue
+        derived = {d: v for d, v in assigned.items() if d not in key}
+        sources = set()
+        for v in derived.values():
+            sources |= {core.src(a) for a in ast.walk(v) if isinstance(a, ast.Attribute) and core.src(a.value) == "self" and not isinstance(getattr(a, "_parent", None), ast.Call) or (isinstance(a, ast.Attribute) and core.src(a.value) == "self" and not (isinstance(getattr(a, "_parent", None), ast.Call) and getattr(a, "_parent").func is a))}
+        sources -= set(derived) | set(key)
+        stale = []
+        for w in methods:
+            if w is m or w.name == "__init__":
+                continue
+            writes = set()
+            for a in ast.walk(w):
+                if isinstance(a, (ast.Assign, ast.AugAssign)):
+                    tg = a.targets if isinstance(a, ast.Assign) else [a.target]
+                    for t in tg:
+                        for x in ([t] if not isinstance(t, ast.Tuple) else t.elts):
+                            base = x
+                            while isinstance(base, ast.Subscript):
+                                base = base.value
+                            if isinstance(base, ast.Attribute) and core.src(base.value) == "self":
+                                writes.add(core.src(base))
+            if writes & sources and not (writes & set(key)) and not (writes >= set(derived)):
+                stale.append((w, sorted(writes & sources)))
+        out.append((m, key, sorted(derived), sorted(sources), stale))
+    return out
+
+
+def _r19k(rep):
+    """Memoised amplitudes follow the eigen-solutions: whoever changes the eigenvalues invalidates what was derived."""
+    rep.rule("R19k", "memoised derived state: when a method skips its work because a key attribute is unchanged (`if ... self._T ...: return`) and otherwise stores values computed from other attributes, every other method that writes one of those attributes resets the key (or recomputes the values); otherwise a run at the same temperature after the frequencies were replaced (frequencies setter, treat_imaginary_modes) samples with the amplitudes of the old spectrum", 0)
+    ctrl = _memo_findings(ast.parse(_MEMO_CONTROL).body[0])
+    if not (len(ctrl) == 1 and ctrl[0][4] and ctrl[0][4][0][0].name == "frequencies"):
+        raise AnalysisError("R19k: the rule no longer recognises its own positive example")
+    for rel in (RD, TD):
+        for cls in [c for c in ast.walk(core.parse(rel)) if isinstance(c, ast.ClassDef)]:
+            for m, key, derived, sources, stale in _memo_findings(cls):
+                rep.instance("R19k", rel, f"{cls.name}.{m.name}", f"memo on {key}: {derived} from {sources}", not stale,
+                             (f"{cls.name}.{stale[0][0].name} writes {stale[0][1]} but leaves {key} as it was: the next {m.name} with an unchanged key returns early and {derived} keep the values computed from the previous {stale[0][1]} -- the sampled displacements then do not have the covariance of the eigen-solutions the object holds" if stale else ""), line=m.lineno)
+    rep.note("R19k: no memoising method on the confirmed tree; the rule is kept alive by a built-in positive example")
 
 
 def _r19f(rep):
